@@ -251,3 +251,17 @@ package store
 //@   set stillWritten = ite(result, 0, 1) after call finalized
 //@   assert at call Sleep: a_short_snapshot_is_waited_for_only_while_its_writer_may_still_append: stillWritten == 1
 //@   set stillWritten = 0 after call Sleep
+
+//@ func fileExist(fn) (r)
+//@   trusted abstract file system
+//@ func strings.TrimSuffix(s, suffix) (r)
+//@   trusted library contract
+
+//@ func RdbReader.finalized
+//@   arith int
+//@   properties C04
+//@   requires nonnil: r != nil
+//@   modifies r.writting
+//@   ensures a_file_opened_under_its_final_name_is_finalized: !old(r.writting) ==> result
+//@   ensures once_finalized_always_finalized: result ==> !r.writting
+//@   ensures still_written_stays: !result ==> r.writting
